@@ -484,3 +484,49 @@ def verbatim_override_rules(chk, m, rid):
                     '%s.invoke edits the token list returned by the inherited verbatim scanner (%s): characters of the verbatim '
                     'text are lost' % (c.fullname, bad), chk.where(fn), 'passes the tokens through')
     need(n >= 2, 'subclasses of VerbatimEnvironment not found')
+
+
+# ---------------------------------------------------------------------------
+# which .paux files a run loads
+# ---------------------------------------------------------------------------
+def paux_rules(chk, m, rid):
+    R = chk.rule(rid, 'Compile.parse (interpreted with a scripted directory listing): every .paux file of the working directory and '
+                 'of the configured paux-dirs is restored with the configured renderer name, except files named <jobname>.paux - the '
+                 'name is derived from the job name (not from the path given on the command line) and compared with the base name', 1)
+    fn = m.module('plasTeX.Compile').functions.get('parse')
+    need(fn is not None, 'plasTeX.Compile.parse not found')
+    chk.analysed(fn)
+    listing = {'/w/*.paux': ['/w/doc.paux', '/w/other.paux', '/w/userdoc.paux'], '/x/*.paux': ['/x/lib.paux', '/x/doc.paux']}
+
+    class H(A.Hooks):
+        def call(self, interp, node, fname, args, kwargs, state):
+            if fname in ('os.getcwd',):
+                return '/w'
+            if fname == 'glob.glob' and len(args) == 1 and isinstance(args[0], str):
+                need(args[0] in listing, 'Compile.parse lists %r (expected the *.paux files of the working directory and of the paux-dirs)' % args[0])
+                return list(listing[args[0]])
+            if fname.endswith('context.restore'):
+                state.env['__restored'] = state.env.get('__restored', ()) + (tuple(a if isinstance(a, str) else repr(a) for a in args),)
+                return A.NONE
+            if fname in ('TeX', 'plasTeX.TeX.TeX'):
+                return A.Obj('tex', {'jobname': 'doc'})
+            if fname.endswith('TeXDocument'):
+                return A.Obj('document', {'userdata': {}, 'context': A.Obj('context', {})})
+            if fname in ('updateLogLevels', 'tex.fileLogging', 'tex.parse'):
+                return A.NONE
+            return None
+
+        def keep(self, ev):
+            return False
+    h = H()
+    h.should_inline = A.private_only
+    it = A.Interp(model=m, scope=fn, hooks=h, max_iter=8, exc_edges=False, inline=2, heap=True, generators=True)
+    config = {'general': {'renderer': 'HTML5', 'paux-dirs': ['/x']}, 'logging': {'logging': {}}, 'files': {'log': False}, 'document': {'title': None}}
+    outs = it.run_function(fn, env={'filename': 'src/doc.tex', 'config': config})
+    chk.paths += len(outs)
+    got = {(kind, tuple(sorted(s2.env.get('__restored', ())))) for kind, s2, v in outs}
+    want = ('return', tuple(sorted([('/w/other.paux', 'HTML5'), ('/w/userdoc.paux', 'HTML5'), ('/x/lib.paux', 'HTML5')])))
+    chk.decide(R, 'own job file skipped on restore', {repr(g) for g in got}, {repr(want)},
+               'processing src/doc.tex (job name doc) in /w with paux-dirs [/x] and the files %s restores %s; expected %s - the own '
+               'doc.paux written by the previous run must not be loaded (forward references would bind to its stale stand-ins), and no '
+               'other document\'s file may be skipped' % (listing, sorted(got, key=repr), want), chk.where(fn))
